@@ -339,7 +339,12 @@ func dstZero(o *Obj) Value {
 	if o.cells == nil {
 		return o.zero
 	}
-	return zeroCell(o.typ)
+	t := o.typ
+	// objects made by new([N]T) carry the array type, those made by make([]T, n) the element type
+	if at, ok := t.Underlying().(*types.Array); ok {
+		t = at.Elem()
+	}
+	return zeroCell(t)
 }
 
 func sameValue(a, b Value) bool {
